@@ -27,6 +27,7 @@ type Profile struct {
 }
 
 var baseWeights = map[string]float64{
+	"did_bind": 0.8, "did_update": 0.3, "sid_payaddr": 0.2,
 	"store_new": 10, "store_update": 6, "complete": 22, "cancel": 2, "terminate": 2, "renew": 3, "migrate": 2,
 	"perm": 2, "claim": 4, "add_vstorage": 2, "remove_vstorage": 2, "node_reset": 1.5, "report": 1, "recover": 1,
 	"send": 1, "delegate": 1, "undelegate": 0.7, "redelegate": 0.4, "adv": 3, "set_payaddr": 0.5, "node_create": 0.3,
@@ -57,6 +58,8 @@ func getProfile(name string) *Profile {
 		return &Profile{Name: name, Horizon: [2]int{120, 350}, W: cloneW(baseWeights, map[string]float64{"adv": 25, "perm": 6, "store_update": 10, "terminate": 3, "renew": 4}), AdvRate: 0.35, Silence: 0.1, DupRate: 0.05, TmoMax: 25}
 	case "faults":
 		return &Profile{Name: name, Horizon: [2]int{200, 1300}, W: cloneW(baseWeights, map[string]float64{"report": 14, "recover": 10, "store_new": 10, "complete": 20}), AdvRate: 0.05, Silence: 0.05, TmoMax: 25}
+	case "did":
+		return &Profile{Name: name, Horizon: [2]int{80, 260}, W: cloneW(baseWeights, map[string]float64{"did_bind": 22, "did_update": 9, "sid_payaddr": 6, "set_payaddr": 6, "store_new": 3, "complete": 4, "adv": 1, "report": 0, "recover": 0}), AdvRate: 0.05, Silence: 0.1, DupRate: 0.08, TmoMax: 25}
 	case "reward":
 		return &Profile{Name: name, Horizon: [2]int{150, 600}, W: cloneW(baseWeights, map[string]float64{"claim": 12, "add_vstorage": 8, "remove_vstorage": 8, "store_new": 6, "complete": 14}), AdvRate: 0.03, Silence: 0.1, TmoMax: 25}
 	}
@@ -121,12 +124,16 @@ type Gen struct {
 	dead     map[int]bool    // data idx known removed
 	quiesce  int             // height at which quiescence phase starts
 	activeUntil int
+	Regen       bool
+	regenAt     int
+	regenDone   bool
 }
 
 func NewGen(e *Env, prof *Profile) *Gen {
 	g := &Gen{e: e, r: NewRng(e.W.Cfg.Seed).Sub("workload"), p: prof, silent: map[string]bool{}, dead: map[int]bool{}}
 	g.horizon = g.r.Range(prof.Horizon[0], prof.Horizon[1])
 	g.quiesce = g.horizon
+	g.regenAt = g.r.Range(g.horizon/5, g.horizon*9/10)
 	g.setup()
 	return g
 }
@@ -233,6 +240,10 @@ func (g *Gen) Next() *Step {
 		return nil
 	}
 	r := g.r
+	if g.Regen && !g.regenDone && h >= g.regenAt {
+		g.regenDone = true
+		return &Step{Regen: true}
+	}
 	// long profile: bursts of activity around scheduled heights, idle stretches between
 	if g.p.Long {
 		if g.activeUntil == 0 {
@@ -782,6 +793,86 @@ func (g *Gen) genKind(k string) *Op {
 			return nil
 		}
 		return &Op{K: "redelegate", A: a.Idx, V: v.Idx + 1, V2: v2.Idx + 1, N: int64(r.Range(1, 300)) * 1_000_000}
+	case "did_bind":
+		pool := append(append(append([]*Actor{}, w.Owners...), w.Delegators...), w.Advs...)
+		owner := g.pickActor(pool)
+		if owner == nil {
+			return nil
+		}
+		op := &Op{K: "did_bind", A: owner.Idx, N: -int64(r.Range(0, 120))}
+		if e.sidOf(owner) != "" || r.Chance(0.3) {
+			// bind a further account to an (existing) sid; submitter usually an already bound account
+			acc := g.pickActor(w.Actors)
+			op.Acc = acc.Idx + 1
+			op.To = owner.Idx + 1
+			if r.Chance(0.3) {
+				op.A = acc.Idx // submitted by the new account itself (not bound yet)
+			}
+		}
+		switch r.Pick([]float64{10, 1.5, 1.5, 1, 3, 3}) {
+		case 1:
+			op.Mis = "badsig"
+		case 2:
+			op.Mis = "otherkey"
+		case 3:
+			op.Mis = "wrongchain"
+		case 4:
+			op.Mis = "eip155"
+			if r.Chance(0.3) {
+				op.Acc = g.pickActor(w.Actors).Idx + 1
+				op.To = owner.Idx + 1
+			}
+		case 5:
+			// timestamps around the edge of the freshness window and clearly stale ones
+			op.N = -int64([]int{880, 895, 899, 901, 905, 930, 2000, 90000}[r.Intn(8)])
+			e.probe("proof_near_window_edge")
+		}
+		return op
+	case "did_update":
+		var cands []*Actor
+		for _, a := range w.Actors {
+			if e.sidOf(a) != "" {
+				cands = append(cands, a)
+			}
+		}
+		a := g.pickActor(cands)
+		if a == nil {
+			return nil
+		}
+		op := &Op{K: "did_update", A: a.Idx, To: a.Idx + 1, N: -int64(r.Range(0, 100))}
+		did := e.sidOf(a)
+		// remove one or two bound accounts (sometimes the payment account, which must be refused)
+		for _, x := range w.Actors {
+			if e.sidOf(x) == did && r.Chance(0.45) {
+				op.L = append(op.L, x.Idx)
+			}
+		}
+		if r.Chance(0.1) {
+			op.A = g.pickActor(w.Actors).Idx
+		}
+		if r.Chance(0.15) {
+			op.N = -int64([]int{895, 905, 5000}[r.Intn(3)])
+		}
+		return op
+	case "sid_payaddr":
+		var cands []*Actor
+		for _, a := range w.Actors {
+			if e.sidOf(a) != "" {
+				cands = append(cands, a)
+			}
+		}
+		a := g.pickActor(cands)
+		if a == nil {
+			return nil
+		}
+		op := &Op{K: "sid_payaddr", A: a.Idx, To: a.Idx + 1}
+		if r.Chance(0.6) {
+			op.Acc = g.pickActor(w.Actors).Idx + 1
+		}
+		if r.Chance(0.15) {
+			op.A = g.pickActor(w.Actors).Idx
+		}
+		return op
 	case "adv":
 		return g.genAdv()
 	}
